@@ -1087,6 +1087,8 @@ class rrule(rrulebase):
             byxxx = (byxxx, )
 
         for num in byxxx:
+            if not 0 <= num < base:
+                continue    # can never match (and __mod_distance would never find it)
             i_gcd = gcd(self._interval, base)
             # Use divmod rather than % because we need to wrap negative nums.
             if i_gcd == 1 or divmod(num - start, i_gcd)[1] == 0:
